@@ -1,7 +1,7 @@
 (* Props/C12.v — property theorems for C12 (commit log), instantiated with the generated
    parameters (block size from src/wal/mod.rs) and the concrete CRC-32.  Proofs by `exact`. *)
 From Coq Require Import List NArith Arith Bool Sorted.
-From SKV Require Import Params Base.Crc32 Codec.Wal Codec.WalSpec Codec.WalInst.
+From SKV Require Import Params Base.Crc32 Codec.Wal Codec.WalSpec Codec.Wal_proofs Codec.WalInst.
 Import ListNotations.
 
 (* the generated parameters satisfy the side conditions under which the framing theorems are
@@ -20,9 +20,37 @@ Proof. apply N.leb_le. vm_compute. reflexivity. Qed.
 Theorem C12_geometry : geometry_ok WB wal_crc.
 Proof. unfold geometry_ok. split; [exact wb_gt_header | split; [exact wb_fits_u16 | exact wal_crc_len]]. Qed.
 
-(* PENDING re-proof after the writer fix (torn tail dropped before appending): C12_wal_roundtrip,
-   C12_wal_truncation_prefix, C12_wal_damage_keeps_earlier, C12_wal_ends_increasing, C12_wal_repair,
-   C12_wal_append_after_recovery (now without the known-class hypothesis). *)
+Section WithCompression.
+Variable compress : list byte -> list byte.
+Variable decompress : list byte -> option (list byte).
+
+(* records of any size, across block boundaries and session splits, read back exactly and in order *)
+Theorem C12_wal_roundtrip : wal_roundtrip_stmt WB wal_crc compress decompress.
+Proof. exact (wal_roundtrip WB wal_crc compress decompress). Qed.
+
+(* a segment cut at any byte yields exactly the records ending inside the cut: a prefix containing
+   every record wholly before the cut *)
+Theorem C12_wal_truncation_prefix : wal_truncation_prefix_stmt WB wal_crc compress decompress.
+Proof. exact (wal_truncation_prefix WB wal_crc compress decompress). Qed.
+
+(* damage at position p never affects the records lying wholly before p (any two byte strings
+   agreeing on their first p bytes) *)
+Theorem C12_wal_damage_keeps_earlier : wal_prefix_stable_stmt WB wal_crc decompress.
+Proof. exact (wal_prefix_stable WB wal_crc compress decompress). Qed.
+
+Theorem C12_wal_ends_increasing : wal_ends_increasing_stmt WB wal_crc decompress.
+Proof. exact (wal_ends_increasing WB wal_crc compress decompress). Qed.
+
+(* repair keeps exactly the delivered records *)
+Theorem C12_wal_repair : wal_repair_stmt WB wal_crc compress decompress.
+Proof. exact (wal_repair_ok WB wal_crc compress decompress). Qed.
+
+(* records appended after recovering ANY cut of a segment are read back at the next open
+   (the writer drops a torn tail before appending; formerly finding F10/F11) *)
+Theorem C12_wal_append_after_recovery : wal_append_after_recovery_stmt WB wal_crc compress decompress.
+Proof. exact (wal_append_after_recovery WB wal_crc compress decompress). Qed.
+End WithCompression.
+
 Definition idc (l : list byte) := l.
 Definition nod (l : list byte) : option (list byte) := None.
 Fixpoint list_list_eqb (a b : list (list byte)) : bool :=
